@@ -106,6 +106,9 @@ def mon_response_once(sc):
     tok_id = {}
     for l in sc["lines"]:
         f = l.split("\t")
+        if f[0] == "env" and f[1] == "feed" and f[2] == "raw":
+            # byte-level records: which ids they carry is the wire model's business (acceptance), not this monitor's
+            return None
         if f[0] == "env" and f[1] == "start":
             fed, outcomes, tok_id = {}, {}, {}
         if f[0] == "env" and f[1] == "feed" and f[2] in ("msg", "msgeof"):
